@@ -210,3 +210,62 @@ mut('c04-twin-release-demorgan', ['C04', 'C17', 'C07'], 'release predicate rewri
     [(T, "if node is not self and not node.is_leaf and not node._retain_grad and not retain_grads__:", "if not (node is self or node.is_leaf or node._retain_grad or retain_grads__):")], expect='silent')
 mut('c04-twin-zero-guard-nested', ['C04', 'C03'], 'zero guard written as nested ifs',
     [(T, "                    if child.requires_grad and (child._grad is None or not child.is_leaf):\n                        child.zero_()", "                    if child.requires_grad:\n                        if not child.is_leaf or child._grad is None:\n                            child.zero_()")], expect='silent')
+
+# ------------------------------------------------------------------------------------------------ C07 (contexts, ctor, guards)
+NG_ENTER = """    def __enter__(self):
+        global gradient__
+        self.prev.append(gradient__)
+        gradient__ = False
+        
+    def __exit__(self, exc_type, exc_val, exc_tb):
+        global gradient__
+        gradient__ = self.prev.pop()
+"""
+mut('c07-ctx-save-in-init (revert of fix)', ['C07'], 'no_grad saves the previous mode in __init__',
+    [(T, "    def __init__(self) -> None:\n        self.prev = []\n    \n" + NG_ENTER, "    def __init__(self) -> None:\n        self.prev = gradient__\n    \n    def __enter__(self):\n        global gradient__\n        gradient__ = False\n        \n    def __exit__(self, exc_type, exc_val, exc_tb):\n        global gradient__\n        gradient__ = self.prev\n")], rules=['C07.CTX'])
+mut('c07-ctx-single-slot', ['C07'], 'no_grad saves on enter but into a single attribute (re-entering the same object loses the outer mode)',
+    [(T, NG_ENTER, "    def __enter__(self):\n        global gradient__\n        self.prev = gradient__\n        gradient__ = False\n        \n    def __exit__(self, exc_type, exc_val, exc_tb):\n        global gradient__\n        gradient__ = self.prev\n")], rules=['C07.CTX'])
+mut('c07-ctx-restore-only-on-success', ['C07'], 'no_grad restores the mode only when the block did not raise',
+    [(T, "        global gradient__\n        gradient__ = self.prev.pop()\n", "        global gradient__\n        if exc_type is None:\n            gradient__ = self.prev.pop()\n")], rules=['C07.CTX'])
+mut('c07-ctx-swallow', ['C07'], 'retain_grads.__exit__ returns True (swallows exceptions)',
+    [(T, "        global retain_grads__\n        retain_grads__ = self.prev.pop()\n", "        global retain_grads__\n        retain_grads__ = self.prev.pop()\n        return True\n")], rules=['C07.CTX'])
+mut('c07-ctx-missing-global', ['C07'], 'retain_grads.__exit__ assigns a local instead of the module flag',
+    [(T, "    def __exit__(self, exc_type, exc_val, exc_tb):\n        global retain_grads__\n        retain_grads__ = self.prev.pop()", "    def __exit__(self, exc_type, exc_val, exc_tb):\n        retain_grads__ = self.prev.pop()")], rules=['C07.CTX'])
+mut('c07-ctor-ignores-mode', ['C07'], 'Tensor.__init__ ignores the global gradient mode', [(T, "req_grad = requires_grad and gradient__", "req_grad = requires_grad")], rules=['C07.CTOR'])
+mut('c07-ctor-float-check-after', ['C07'], 'integer tensors can be created with requires_grad=True (check uses the requested flag only under mode)',
+    [(T, "        if req_grad and not self.is_floating_point:\n            raise RuntimeError(\"Only floating point Tensors can require gradients\")\n        self._requires_grad = req_grad",
+      "        self._requires_grad = req_grad\n        if requires_grad and gradient__ and dtype is not None and not self.is_floating_point:\n            raise RuntimeError(\"Only floating point Tensors can require gradients\")")], rules=['C07.CTOR'])
+mut('c07-setter-no-float-check', ['C07'], 'requires_grad setter accepts integer tensors',
+    [(T, "        if value and not self.is_floating_point:\n            raise RuntimeError(\"Only floating point Tensors can require gradients\")\n        \n        self._requires_grad = value", "        self._requires_grad = value")], rules=['C07.GUARDS'])
+mut('c07-retain-grad-unguarded', ['C07'], 'retain_grad() allowed on tensors that do not require grad',
+    [(T, "        if not self.requires_grad:\n            raise RuntimeError(\"Cannot retain_grad() on a Tensor that doesn't require grad\")\n", "")], rules=['C07.GUARDS'])
+mut('c07-twin-ctx-attr-name', ['C07'], 'stack attribute renamed', [(T, "self.prev", "self._saved")], expect='silent', count=6)
+
+# ------------------------------------------------------------------------------------------------ C10
+mut('c10-scalar-default (revert of fix)', ['C10'], 'NumPy scalar results are converted with the default float32',
+    [(T, "data = np.array(data, dtype=data.dtype if isinstance(data, np.generic) else default_type__)", "data = np.array(data, dtype=default_type__)")], rules=['C10.SCALAR'])
+mut('c10-conv-bias-float64', ['C10'], 'conv1d_forward accumulates into a dtype-less zeros buffer (float64 result for float32 operands)',
+    [(K, "    conv_out = np.tensordot(weight, windows, axes=[(1,2), (2,3)])\n    if bias is not None: conv_out += bias.reshape(-1, 1, 1)", "    conv_out = np.tensordot(weight, windows, axes=[(1,2), (2,3)])\n    if bias is not None: conv_out = conv_out + np.ones(conv_out.shape) * bias.reshape(-1, 1, 1)")], rules=['C10.FWD'])
+mut('c10-leaky-mask-float64', ['C10'], 'leaky_relu_forward built from boolean masks times Python floats (float64 result)',
+    [(K, "return np.maximum(neg_slope * a, a)", "return a * ((a > 0) + neg_slope * (a <= 0))")], rules=['C10.FWD'])
+mut('c10-place-windows-dtype', ['C10', 'C16'], 'place_windows allocates its output without the windows dtype',
+    [(CT, "output = np.zeros((N, C, W_with_pad), dtype=windows.dtype)", "output = np.zeros((N, C, W_with_pad))")], rules=['C10.FWD'])
+mut('c10-acc-assign', ['C10'], 'relu closure assigns the kernel result as the buffer', [(NF, "        if x.requires_grad: x._grad += a_grad \n    \n    if out.requires_grad: out.grad_fn = BackwardFunction(backward, out._operation)\n        \n    return out\n\n\ndef leaky_relu",
+      "        if x.requires_grad: x._grad = x._grad + a_grad \n    \n    if out.requires_grad: out.grad_fn = BackwardFunction(backward, out._operation)\n        \n    return out\n\n\ndef leaky_relu")], rules=['C10.BUFFER'])
+mut('c10-matches-shape-rank-only', ['C10'], 'matches_shape compares ranks only', [(T, "            if n1 != n2: return False\n", "            if n1 != n2 and n1 != 1: return False\n")], rules=['C10.SEEDSHAPE'], accept_incomplete=True)
+mut('c10-twin-getattr', ['C10'], 'scalar dtype kept through getattr(data, "dtype", default)',
+    [(T, "dtype=data.dtype if isinstance(data, np.generic) else default_type__)", "dtype=getattr(data, 'dtype', default_type__))")], expect='silent')
+
+# ------------------------------------------------------------------------------------------------ C11
+mut('c11-add-inplace', ['C11'], 'add_forward adds in place into its first operand', [(K, "def add_forward(a:np.ndarray, b:np.ndarray):\n    return a + b", "def add_forward(a:np.ndarray, b:np.ndarray):\n    a += b\n    return a")], rules=['C11.KERNEL-PURE'])
+mut('c11-relu-out-param', ['C11'], 'relu_forward writes its result into the operand via out=', [(K, "return np.maximum(0, a)\n\ndef relu_backward", "return np.maximum(0, a, out=a)\n\ndef relu_backward")], rules=['C11.KERNEL-PURE'])
+mut('c11-ce-backward-mutates-view', ['C11'], 'cross_entropy_loss_backward subtracts the one-hot in place from a reshaped view of y_pred',
+    [(K, "    dlogits = softmax_forward(y_pred, 1)\n    n = y_pred.shape[0]", "    dlogits = y_pred.reshape(y_pred.shape)\n    n = y_pred.shape[0]")], rules=['C11.KERNEL-PURE'])
+mut('c11-bn-normalises-in-place', ['C11'], 'batch_norm_forward centres x in place', [(K, "    x_norm = (x - mean.reshape(keepdims_shape)) / std.reshape(keepdims_shape)", "    x -= mean.reshape(keepdims_shape)\n    x_norm = x / std.reshape(keepdims_shape)")], rules=['C11.KERNEL-PURE'])
+mut('c11-detach-no-copy', ['C11'], 'detach shares storage with its source', [(T, "return Tensor(self.data.copy(), requires_grad=False, name=self.name, device=self.device)", "return Tensor(self.data, requires_grad=False, name=self.name, device=self.device)")], rules=['C11.COPY'])
+mut('c11-clone-view', ['C11'], 'clone_forward returns a view', [(K, "def clone_forward(a:np.ndarray):\n    return a.copy()", "def clone_forward(a:np.ndarray):\n    return a.view()")], rules=['C11.COPY'])
+mut('c11-wrapper-writes-data', ['C11'], 'relu wrapper clamps the operand storage itself', [(NF, "        out_data = cpu_ops.relu_forward(x.data)\n", "        out_data = cpu_ops.relu_forward(x.data)\n        x.data = out_data\n")], rules=['C11.WRITERS', 'C11.WRAPPER-PURE'])
+mut('c11-mse-writes-target', ['C11'], 'mse_loss_backward reuses the target array for the difference',
+    [(K, "    return grad * 2 * (y_pred - y_true)", "    np.subtract(y_pred, y_true, out=y_true)\n    return grad * 2 * y_true")], rules=['C11.KERNEL-PURE'])
+mut('c11-dropout-in-op', ['C11'], 'relu kernel adds random jitter', [(K, "return np.maximum(0, a)\n\ndef relu_backward", "return np.maximum(0, a + 0 * np.random.rand())\n\ndef relu_backward")], rules=['C11.DET'])
+mut('c11-twin-copy-then-inplace', ['C11'], 'add_forward copies then adds in place', [(K, "def add_forward(a:np.ndarray, b:np.ndarray):\n    return a + b", "def add_forward(a:np.ndarray, b:np.ndarray):\n    out = a.copy()\n    out += b\n    return out")], expect='silent')
